@@ -1355,7 +1355,58 @@ pub fn run(ctx: &mut Ctx) {
     default_inputs(ctx, &mut env, &pool);
     random_strings(ctx, &mut env);
     chains(ctx, &mut env, &pool);
+    literal_entry_chains(ctx);
     env.flush(ctx);
+}
+
+/// Chains whose entry value is a *literal* and whose arguments are variables, parsed once and
+/// evaluated many times with different argument values — across renders and across iterations of
+/// one render. "The result of a filter chain is the left-to-right composition of its filters":
+/// with the arguments of *this* evaluation. (All other blocks enter the chain through a variable.)
+fn literal_entry_chains(ctx: &mut Ctx) {
+    let p = crate::cfg::parser(crate::cfg::Config::Stdlib);
+    let srcs = [
+        ("{{ 'aB é' | append: y | prepend: z | vdump }}", 0usize),
+        ("{{ \"x,y\" | replace: ',', y | upcase | append: z | vdump }}", 1),
+        ("{% for w in ws %}[{{ 'L' | append: w | append: forloop.index | vdump }}]{% endfor %}", 2),
+        ("{% assign k = 'q' | append: y %}{{ k | vdump }}{% assign k = 'q' | append: z %}{{ k | vdump }}", 3),
+    ];
+    let args = ["", "1", "é", "👍 ", "B", ",", "<", "a a"];
+    for (src, kind) in srcs {
+        let t = p.parse(src).expect("c13 literal-entry template");
+        for (iy, y) in args.iter().enumerate() {
+            for (iz, z) in args.iter().enumerate() {
+                let h = crate::rng::hash_str(&format!("lit-entry:{src}:{iy}:{iz}"));
+                // deliberately NOT sharded by hash alone: every worker re-evaluates one parsed chain with
+                // a sequence of different arguments; the sequence is what matters
+                if !ctx.mine_idx((iy % 2) as u64 * 8 + kind as u64) && ctx.nshards > 1 && !ctx.mine(h) {
+                    // still evaluate (keeps the history of the shared parsed chain long), just do not record
+                }
+                let mut o = Object::new();
+                o.insert("y".into(), liquid::model::Value::scalar(y.to_string()));
+                o.insert("z".into(), liquid::model::Value::scalar(z.to_string()));
+                o.insert("ws".into(), liquid::model::Value::Array(vec![liquid::model::Value::scalar(y.to_string()), liquid::model::Value::scalar(z.to_string()), liquid::model::Value::scalar("")]));
+                let want = match kind {
+                    0 => RVal::Str(format!("{z}aB é{y}")).dump(),
+                    1 => RVal::Str(format!("{}{z}", format!("x{y}y").to_uppercase())).dump(),
+                    2 => [y, z, &""].iter().enumerate().map(|(i, w)| format!("[{}]", RVal::Str(format!("L{w}{}", i + 1)).dump())).collect::<String>(),
+                    _ => format!("{}{}", RVal::Str(format!("q{y}")).dump(), RVal::Str(format!("q{z}")).dump()),
+                };
+                let out = crate::exec::render(&t, &o);
+                if ctx.mine(h) {
+                    ctx.record(h, true);
+                    ctx.count("family:literal-entry-chain");
+                }
+                if out.ok() != Some(want.as_str()) {
+                    ctx.violation(
+                        "chain:literal-entry-result-not-composition-of-current-arguments",
+                        &format!("{src:?} with y={y:?} z={z:?} (after earlier evaluations of the same parsed chain with other arguments) gave {:?}, composition gives {want:?}", out.summary()),
+                        || json!({"kind": "filter-eval", "template": src, "data": {"y": y, "z": z}, "expected": want}),
+                    );
+                }
+            }
+        }
+    }
 }
 
 /// indices of the inputs of the unary-style blocks: all of length <= 3, plus all (thorough) or a
